@@ -91,7 +91,36 @@ func (e *Engine) result(p *load.Program, tier string) (res *oblig.Set) {
 			}
 			e.wall = time.Since(t0).Seconds()
 		}()
-		e.res = e.Run(p, tier)
+		// an engine that does not come back is an incomplete analysis, not a
+		// hanging check: give up on it after a generous budget
+		budget := 8 * time.Minute
+		if tier == "thorough" {
+			budget = 40 * time.Minute
+		}
+		if v := os.Getenv("CALCSA_ENGINE_BUDGET_S"); v != "" {
+			if n, err := strconv.Atoi(v); err == nil && n > 0 {
+				budget = time.Duration(n) * time.Second
+			}
+		}
+		done := make(chan *oblig.Set, 1)
+		go func() {
+			defer func() {
+				if r := recover(); r != nil {
+					s := oblig.NewSet()
+					s.Unk("PANIC", "engine "+e.Name, "-", fmt.Sprintf("analyser panic: %v", r), strings.Split(string(debug.Stack()), "\n")...)
+					done <- s
+				}
+			}()
+			done <- e.Run(p, tier)
+		}()
+		select {
+		case r := <-done:
+			e.res = r
+		case <-time.After(budget):
+			s := oblig.NewSet()
+			s.Unk("PANIC", "engine "+e.Name, "-", fmt.Sprintf("the engine did not finish within %s: the analysis of the current tree is incomplete (a loop or path explosion the engine does not bound)", budget))
+			e.res = s
+		}
 	})
 	return e.res
 }
